@@ -196,5 +196,6 @@ def constant_fold_unary_op(op: str, value: ConstantValue) -> int | float | None:
     elif op == "~" and isinstance(value, int):
         return ~value
     elif op == "+" and isinstance(value, (int, float)):
-        return value
+        # Note that this turns a bool into an int.
+        return +value
     return None
